@@ -91,3 +91,57 @@ def standard_queries(rng, content, n_states=2):
     times = rng.sample(["0", "1/2", "1", "2", "3"], rng.randint(1, 3))
     qs.append(["tc", [[t, C.gen_state(rng, content)] for t in sorted(times, key=lambda x: eval(x))]])
     return qs
+
+
+# --------------------------------------------------------------------------- shrinking
+
+
+def _fails(case):
+    """R != S on this (single-query) case, judged on real code and oracle only"""
+    try:
+        R = [canon_R(q, r) for q, r in zip(case["queries"], _real_worker(case))]
+        S = _spec(case)
+    except Exception:  # noqa: BLE001
+        return False
+    return any(s != "inexact" and C.canon(r) != C.canon(s) for r, s in zip(R, S))
+
+
+def shrink_case(case, budget=400):
+    """greedy delta-debugging over components / arguments / expressions while R != S persists"""
+    import copy
+
+    cur = copy.deepcopy(case)
+    if not _fails(cur):
+        return cur
+    steps = 0
+    changed = True
+    while changed and steps < budget:
+        changed = False
+        c = cur["content"]
+        for kind in ("surs", "rxns", "derived", "pars", "vars"):
+            i = 0
+            while i < len(c.get(kind, [])) and steps < budget:
+                trial = copy.deepcopy(cur)
+                del trial["content"][kind][i]
+                steps += 1
+                if _fails(trial):
+                    cur = trial
+                    c = cur["content"]
+                    changed = True
+                else:
+                    i += 1
+        # simplify function bodies to their first argument / a constant
+        for kind in ("derived", "rxns"):
+            for i, (_, f) in enumerate(c.get(kind, [])):
+                for repl in (["a", 0], ["c", "1"]):
+                    if f["e"] == repl or (repl[0] == "a" and not f["args"]):
+                        continue
+                    trial = copy.deepcopy(cur)
+                    trial["content"][kind][i][1]["e"] = repl
+                    steps += 1
+                    if _fails(trial):
+                        cur = trial
+                        c = cur["content"]
+                        changed = True
+                        break
+    return cur
